@@ -39,8 +39,8 @@ type adapter[K any] struct {
 	show  func(K) string
 	// per tree (the race leg runs many sessions at once): observations "a returned key changed afterwards",
 	// and the last few []byte keys the tree handed out
-	alias   []string
-	yielded *yieldRing
+	alias     []string
+	yielded   *yieldRing
 	untracked bool // shared by concurrent readers (race leg): the adapter itself must not write anything
 }
 
@@ -157,8 +157,6 @@ func (a *adapter[K]) Seq(tag string, args []string) iter.Seq2[string, int] {
 	}
 }
 
-
-
 // ---- key text formats ---------------------------------------------------------
 
 func xbytes(s string) []byte {
@@ -184,7 +182,7 @@ func parseS(s string) int64 {
 	neg := strings.HasPrefix(s, "-")
 	m := parseU(strings.TrimPrefix(s, "-"))
 	if neg {
-		return -int64(m - 1) - 1 // handles 0x8000000000000000
+		return -int64(m-1) - 1 // handles 0x8000000000000000
 	}
 	return int64(m)
 }
